@@ -126,7 +126,12 @@ func (c *ExecCtx) syncCall(st *State, fn *types.Func, f *ast.SelectorExpr, call 
 		return nil, true
 	case "(*sync.WaitGroup).Add":
 		n := c.eval(st, call.Args[0])
+		c.runBeforeNamedCallAnchors(st, "Add", call, nil, []Val{n})
 		c.wgAdd(st, f.X, n.T)
+		u.setTag(st, "wgadd:"+exprString(f.X))
+		c.callArgs = []Val{n}
+		c.runNamedCallAnchors(st, "Add", call, nil)
+		c.callArgs = nil
 		return nil, true
 	case "(*sync.WaitGroup).Done":
 		c.wgAdd(st, f.X, IntLit(-1))
